@@ -1,7 +1,7 @@
 """Harness side of C39: a shell task whose stdout is its own environment, a simulated `$MODULESHOME/libexec/lmod`,
 a controlled caller environment and a call-through recorder at `pydra.environments.base.execute`.
 
-The simulated lmod is a /bin/sh script (builtins and /bin/cat only, so it also works when the caller has no PATH).  It
+The simulated lmod is a /bin/sh script (shell builtins only, so it also works when the caller has no PATH).  It
 answers exactly one request, `python load <requested modules>`, with the prepared answer file; any other request gets
 Lmod's failure answer.  Every request is appended to `<lmod>.log`.
 """
@@ -16,7 +16,8 @@ from pathlib import Path
 
 from pydra.compose import shell
 
-CHILD = [sys.executable, "-c", "import os,json;print(json.dumps(dict(os.environ)))"]
+# -S: the child needs only the standard library; skipping `site` (the venv's .pth hooks) halves its start-up cost
+CHILD = [sys.executable, "-S", "-c", "import os,json;print(json.dumps(dict(os.environ)))"]
 FAILURE = "_mlstatus = False\n"
 # variables of the harness process that stay in every caller environment (what python/pydra need to run)
 BASE_KEYS = ["HOME", "NO_ET", "PYDRA_HASH_CACHE", "PYTHONPATH", "PYTHONHASHSEED", "PYTHONDONTWRITEBYTECODE",
@@ -26,8 +27,10 @@ LMOD_SH = """#!/bin/sh
 printf '%s\\n' "$*" >> "$0.log"
 IFS= read -r want < "$0.request"
 if [ "$*" = "$want" ]; then
-    if [ -f "$0.stderr" ]; then /bin/cat "$0.stderr" >&2; fi
-    /bin/cat "$0.answer"
+    if [ -f "$0.stderr" ]; then
+        while IFS= read -r line; do printf '%s\\n' "$line" >&2; done < "$0.stderr"
+    fi
+    while IFS= read -r line; do printf '%s\\n' "$line"; done < "$0.answer"
     if [ -f "$0.fail" ]; then exit 1; fi
     exit 0
 fi
